@@ -37,31 +37,45 @@ Sound(S, fs, R) ==
 Complete(S, fs, R) ==
     \A j \in Live(fs) : Cardinality(MLoose(S, fs[j])) <= Eff(fs[j]) => MStrict(S, fs[j]) \subseteq Range(R)
 
+\* the same for a relay that ignores delegation when serving stored `authors` queries (known finding, LMDB)
+CompleteOwn(S, fs, R) ==
+    \A j \in Live(fs) : Cardinality(MLoose(S, fs[j])) <= Eff(fs[j]) =>
+        {i \in S : MatchesG(i, Ev(i), fs[j], TRUE, FALSE)} \subseteq Range(R)
+
 \* C02: an event matching k filters arrives between 1 and k times
 Multiplicity(S, fs, R) ==
     \A i \in Range(R) : Count(R, i) <= Cardinality({j \in Live(fs) : Matches(i, Ev(i), fs[j], FALSE)})
 
-\* C12: there is an attribution of delivered items to filters under which every
-\* filter gets at most its limit and nothing newer was left out
-Attributions(fs, R) == {a \in [DOMAIN R -> Live(fs)] :
-                          /\ \A k \in DOMAIN R : Matches(R[k], Ev(R[k]), fs[a[k]], FALSE)
-                          /\ \A k, m \in DOMAIN R : (k # m /\ R[k] = R[m]) => a[k] # a[m]}
-LimitOK(S, fs, R) ==
-    \E a \in Attributions(fs, R) :
+\* C12: there is an attribution of delivered items to filters (each item to a filter it matches, copies of
+\* one event to different filters) under which every filter gets at most its limit and no matching event
+\* that was left out of the answer is newer than one sent for that filter.
+Cand(fs, R, k) == {j \in Live(fs) : Matches(R[k], Ev(R[k]), fs[j], FALSE)}
+RECURSIVE AttrUpTo(_, _, _)
+AttrUpTo(fs, R, k) == IF k = 0 THEN {<<>>}
+                      ELSE {Append(a, j) : a \in AttrUpTo(fs, R, k - 1), j \in Cand(fs, R, k)}
+Attributions(fs, R) == {a \in AttrUpTo(fs, R, Len(R)) :
+                          \A k, m \in DOMAIN R : (k # m /\ R[k] = R[m]) => a[k] # a[m]}
+CannotTruncate(S, fs) == \A j \in Live(fs) : Cardinality(MLoose(S, fs[j])) <= Eff(fs[j])
+LimitOKG(S, fs, R, deleg) ==
+    \/ CannotTruncate(S, fs) /\ Complete(S, fs, R) /\ Multiplicity(S, fs, R)   \* then any attribution works
+    \/ \E a \in Attributions(fs, R) :
         \A j \in Live(fs) :
             LET mine == {k \in DOMAIN R : a[k] = j} IN
             /\ Cardinality(mine) <= Eff(fs[j])
-            /\ \A y \in MStrict(S, fs[j]) \ {R[k] : k \in mine} :
+            /\ \A y \in {i \in S : MatchesG(i, Ev(i), fs[j], TRUE, deleg)} \ Range(R) :
                    \A k \in mine : ~(Ev(y).ts > Ev(R[k]).ts)
+LimitOK(S, fs, R) == LimitOKG(S, fs, R, TRUE)
 
 QueryOK(S, fs, R) == Sound(S, fs, R) /\ Complete(S, fs, R) /\ Multiplicity(S, fs, R) /\ LimitOK(S, fs, R)
 
 \* which clauses fail (for verdicts)
 QueryVerdict(S, fs, R) ==
     (IF Sound(S, fs, R) THEN {} ELSE {"C01_Sound"})
-    \cup (IF Complete(S, fs, R) THEN {} ELSE {"C02_Complete"})
+    \cup (IF Complete(S, fs, R) THEN {} ELSE IF CompleteOwn(S, fs, R) THEN {"C02_Complete_OnlyDelegatedMissing"}
+                                               ELSE {"C02_Complete"})
     \cup (IF Multiplicity(S, fs, R) THEN {} ELSE {"C02_Multiplicity"})
-    \cup (IF ~Sound(S, fs, R) \/ LimitOK(S, fs, R) THEN {} ELSE {"C12_Limit"})
+    \cup (IF ~Sound(S, fs, R) \/ ~Multiplicity(S, fs, R) \/ LimitOK(S, fs, R) THEN {}
+          ELSE IF LimitOKG(S, fs, R, FALSE) THEN {"C12_Limit_OnlyDelegatedMissing"} ELSE {"C12_Limit"})
 
 ----------------------------------------------------------------------------
 (* relations between two answers (C11) *)
